@@ -118,6 +118,51 @@ const GenXML = `<?xml version="1.0" encoding="UTF-8"?>
   </application>
 </diameter>`
 
+// HierXML is loaded on top of the embedded base dictionary: the applications that the
+// library chains (16777251 -> 4 -> 1 -> base, 16777238 -> 4 -> 1 -> base) each with a command
+// of their own, and codes that base defines with one type and a parent application with
+// another, so that the order application, parents, base decides what a code means.
+const HierXML = `<?xml version="1.0" encoding="UTF-8"?>
+<diameter>
+  <application id="0" name="Base">
+    <avp name="H-A" code="9500" must="M"><data type="Unsigned32"/></avp>
+    <avp name="H-B" code="9501" must="M"><data type="OctetString"/></avp>
+    <avp name="H-C" code="9502" must="M"><data type="Unsigned64"/></avp>
+    <avp name="H-D" code="9503" must="M"><data type="Integer32"/></avp>
+    <avp name="HV-E" code="9504" must="M,V" vendor-id="10415"><data type="Unsigned32"/></avp>
+  </application>
+  <application id="1" type="auth" name="H-Nasreq">
+    <command code="8388101" short="HN" name="H-Nas-Cmd">
+      <request><rule avp="H-A" required="false"/></request>
+      <answer><rule avp="H-A" required="false"/></answer>
+    </command>
+    <avp name="H-A" code="9500" must="M"><data type="UTF8String"/></avp>
+    <avp name="H-D" code="9503" must="M"><data type="Grouped"><rule avp="H-A" required="false"/><rule avp="H-B" required="false"/></data></avp>
+    <avp name="HV-E" code="9504" must="M,V" vendor-id="10415"><data type="UTF8String"/></avp>
+  </application>
+  <application id="4" type="auth" name="H-Credit">
+    <command code="8388104" short="HC" name="H-Credit-Cmd">
+      <request><rule avp="H-A" required="false"/></request>
+      <answer><rule avp="H-A" required="false"/></answer>
+    </command>
+    <avp name="H-B" code="9501" must="M"><data type="Unsigned32"/></avp>
+  </application>
+  <application id="16777251" type="auth" name="H-S6a">
+    <command code="8388151" short="HS" name="H-S6a-Cmd">
+      <request><rule avp="H-A" required="false"/></request>
+      <answer><rule avp="H-A" required="false"/></answer>
+    </command>
+    <avp name="H-C" code="9502" must="M"><data type="UTF8String"/></avp>
+  </application>
+  <application id="16777238" type="auth" name="H-Gx">
+    <command code="8388138" short="HG" name="H-Gx-Cmd">
+      <request><rule avp="H-A" required="false"/></request>
+      <answer><rule avp="H-A" required="false"/></answer>
+    </command>
+    <avp name="H-G" code="9505" must="M"><data type="Unsigned32"/></avp>
+  </application>
+</diameter>`
+
 // GenXML2 is GenXML with the names of two pairs of AVPs exchanged (the codes and
 // types stay): the same name means another code than in GenXML.
 var GenXML2 = func() string {
